@@ -65,7 +65,53 @@ func checkC05(c PairCase, r *rec.Rec) error {
 	return nil
 }
 
+// bigCountsPair: multisets over 2-3 symbols whose multiplicities are large
+// and are exchanged between the two sides.
+func bigCountsPair(t *rapid.T) PairCase {
+	syms := []val.V{1.0, 2.0, "x"}[:gen.Int(t, "nSyms", 2, 3)]
+	counts := make([]int, len(syms))
+	for i := range counts {
+		counts[i] = gen.Pick(t, "count", []int{1, 2, 44, 255, 256, 257, 300})
+	}
+	build := func(cs []int) val.V {
+		var out []val.V
+		for i, s := range syms {
+			for k := 0; k < cs[i]; k++ {
+				out = append(out, s)
+			}
+		}
+		return out
+	}
+	a := build(counts)
+	perm := rapid.Permutation(counts).Draw(t, "countPerm")
+	b := build(perm)
+	opts := gen.Pick(t, "opts", []string{"mset", "mset", "mset+merge", "set"})
+	if gen.Chance(t, "underKey", 40) {
+		a, b = map[string]val.V{"k": a}, map[string]val.V{"k": b}
+	}
+	return PairCase{A: val.JSON(a), B: val.JSON(b), Opts: opts}
+}
+
 func genC05(t *rapid.T) PairCase {
+	if gen.Chance(t, "bigCounts", 2) {
+		return bigCountsPair(t)
+	}
+	if gen.Chance(t, "mergeWithNulls", 6) {
+		// the biconditional does not need null-free documents
+		opts := gen.Pick(t, "opts", []string{"merge", "set+merge", "mset+merge"})
+		p := gen.Profile{VoidRoot: true}
+		a := gen.Doc(t, p)
+		var b val.V
+		if val.IsVoid(a) {
+			b = gen.Doc(t, p)
+		} else {
+			b = gen.Edit(t, a, p)
+			if o, ok := b.(map[string]val.V); ok && gen.Chance(t, "nullMember", 50) {
+				o[gen.Pick(t, "nk", []string{"k", "n", "a"})] = nil
+			}
+		}
+		return PairCase{A: val.JSON(a), B: val.JSON(b), Opts: opts}
+	}
 	if gen.Chance(t, "mergePrecision", 6) {
 		// both CLIs accept -f merge together with -precision
 		pc := genEqPair(t, []string{"list"}, true)
